@@ -3,3 +3,9 @@ package cli
 // Overlay-only export for the verification harnesses (not part of the repository).
 
 func ZvReadConfig(args []string) *CliConfig { return readConfig(args) }
+
+// ZvAwait and ZvRunEngine expose the process-level termination logic.
+var (
+	ZvAwait     = awaitPandoraTermination
+	ZvRunEngine = runEngine
+)
